@@ -31,7 +31,8 @@ def _advances(arm, cursor="rgce"):
     """constant advances `rgce = &rgce[K..]` at the top level of the arm (not inside nested matches/ifs)"""
     out = []
     body = unwrap(arm["body"])
-    stmts = body["block"]["stmts"] if body.get("k") == "BlockExpr" else [{"k": "Expr", "e": body}]
+    from .kit import body_stmts
+    stmts = body_stmts(arm["body"])
     for s in stmts:
         e = unwrap(s.get("e") or {})
         if e.get("k") == "Assign" and path_local(e["l"]) and path_local(e["l"])[0] == cursor:
